@@ -483,6 +483,9 @@ def obligations(tier, build):
                                   "step": "-8..8 or None (constant divisor in the count closed form)"},
                           leverage="all of start/stop/length", max_paths=60000, **common))
     import props._owners as owners_
+    obs.append(Obligation("detached/list", owners_.detached_harness("list"), bounds={"how the container lost its place": owners_.DETACH_HOWS,
+                                                                                      "operations": "3 valid, 2 refused by the built-in"},
+                          leverage="choice feasibility only"))
     obs.append(Obligation("sharing/list", owners_.sharing_harness("list"),
                           bounds={"ways of handing a value on": owners_.SHARING_HOWS, "declarations": "x and y from ONE shared definition object"},
                           leverage="choice feasibility only", stubs=[]))
